@@ -29,8 +29,11 @@ META = {
     "level_text": "Header blocks and bodies are generated at limit-1/limit/limit+1/2x/100x for each of max_header_size, "
                   "max_body_size (values from 0 = no request body accepted, up to 64 KiB) and a per-request set_max_body_size override (lower and higher, set in headers_received "
                   "of a raw delegate and in prepare() of a @stream_request_body handler), for Content-Length, chunked "
-                  "(one chunk, 1-byte chunks, a chunk straddling the limit) and gzip bodies (1:1, zero bombs, wire size at "
-                  "the limit, multi-member) under several segmentations; the sum of data_received lengths, finish/close, "
+                  "(one chunk, 1-byte chunks, a chunk straddling the limit), a repeated Content-Length (two/three field lines, "
+                  "'N, N' lists) and gzip bodies (1:1, zero bombs, wire size at "
+                  "the limit, multi-member) under several segmentations; plus request histories on one kept-alive connection "
+                  "(2-3 request/response exchanges mixing requests with and without the per-request override, the last one "
+                  "probing the limit in force for it; server-wide limit given by max_body_size or only by max_buffer_size); the sum of data_received lengths, finish/close, "
                   "status and EOF are compared with what the arithmetic demands.",
     "level_note": "Sizes are sampled at boundaries, not exhaustive. Header-block size is ambiguous by a request line: heads "
                   "that exceed max_header_size only when the request line and final CRLF are counted are UNSPECIFIED. "
@@ -39,23 +42,35 @@ META = {
     "engine": "wire",
 }
 RULE = ("cases are (limit configuration incl. the limit value 0, framing, size, override, handler, schedule); sizes are limit-1, limit, limit+1, 2x, "
-        "100x of the effective limit (decoded size, and wire size for gzip); non-trivial = size within +-1 of a limit or a "
+        "100x of the effective limit (decoded size, and wire size for gzip); 'seq' cases are histories of 2-3 exchanges on one "
+        "connection ((max_body_size | max_buffer_size only), override higher/lower, which requests carry the override, probe "
+        "size around both limits); non-trivial = size within +-1 of a limit or a "
         "gzip ratio > 10; distinct by the parameter tuple")
 FLOORS = {"quick": 600, "thorough": 8000}
 ASSUMPTIONS = [
     "effective body limit = per-request set_max_body_size value if the delegate/handler sets one, else max_body_size",
     "for gzip with decompress_request both the wire size and the decompressed size must be within the limit to be 'within limits'",
     "header block size H = request line + field lines + blank line; refusal is demanded only when the field lines alone exceed the limit",
+    "a per-request override applies to the request whose delegate set it and to no later request on the connection",
+    "without max_body_size the server-wide body limit is the connection stream's max_buffer_size (HTTPServer(max_buffer_size=N); "
+    "the rig builds the accepted stream with that max_buffer_size as TCPServer does)",
+    "histories are request/response exchanges, not pipelines: bytes sent ahead of the request being served fall under the "
+    "stream's read-ahead cap (connection closed at max_buffer_size), which is not judged here",
+    "a repeated identical Content-Length within the limit is accept-or-reject (RFC 9110 8.6); above the limit it must be refused either way",
 ]
 REQUIRED_COUNTERS = ["oracle_evals", "must_accept", "must_refuse", "delivered_bound_evals", "header_cases", "gzip_cases",
-                     "override_cases"]
+                     "override_cases", "history_cases", "history_limit_from_max_buffer_size", "history_refused_last",
+                     "history_all_within"]
 SHARD_TIMEOUT = {"quick": 240, "thorough": 3000}
 
 # 0 is a limit value like any other ("accept no request body at all"): every non-empty body is larger than it
 LIMITS = [0, 1, 7, 64, 1000, 65536]
 HEADER_LIMITS = [64, 300, 4096, 65536]
 FRAMINGS = ["cl", "chunked1", "chunked-bytes", "chunked-straddle", "gzip-cl", "gzip-chunked", "gzip-bomb", "gzip-wire",
-            "gzip-multi"]
+            "gzip-multi", "cl-dup-lines", "cl-dup-list"]
+# a declared size that is repeated (RFC 9110 8.6: "Content-Length: 42, 42" may be rejected or used as 42): as two field
+# lines, or as one list in the spellings proxies produce
+DUP_LIST_STYLES = [b"%d, %d", b"%d,%d", b"%d, %d, %d", b"%d,  %d", b"%d ,%d"]
 REQ_LINE = b"POST /u HTTP/1.1\r\n"
 FOLLOW = b"GET /follow HTTP/1.1\r\nHost: x\r\n\r\n"
 
@@ -93,7 +108,7 @@ def build_body(case):
     D = case["size"]
     E = case["E"]
     hdrs = []
-    if fr in ("cl", "chunked1", "chunked-bytes", "chunked-straddle"):
+    if fr in ("cl", "chunked1", "chunked-bytes", "chunked-straddle", "cl-dup-lines", "cl-dup-list"):
         decoded = _det(D)
         payload = decoded
     elif fr in ("gzip-cl", "gzip-chunked"):
@@ -123,7 +138,15 @@ def build_body(case):
     else:
         raise ValueError(fr)
     W = len(payload)
-    if fr in ("cl", "gzip-cl", "gzip-bomb", "gzip-wire", "gzip-multi"):
+    if fr == "cl-dup-lines":
+        n = 2 + case.get("sseed", 0) % 2
+        hdrs += [(b"Content-Length", str(W).encode())] * n
+        wire_body = payload
+    elif fr == "cl-dup-list":
+        style = DUP_LIST_STYLES[case.get("sseed", 0) % len(DUP_LIST_STYLES)]
+        hdrs.append((b"Content-Length", style % ((W,) * style.count(b"%d"))))
+        wire_body = payload
+    elif fr in ("cl", "gzip-cl", "gzip-bomb", "gzip-wire", "gzip-multi"):
         hdrs.append((b"Content-Length", str(W).encode()))
         wire_body = payload
     else:
@@ -169,6 +192,8 @@ def build_header_case(case):
 
 def shards(tier, seed):
     out = [{"kind": "header"}]
+    for j in range(2 if tier == "quick" else 8):
+        out.append({"kind": "seq", "j": j, "of": 2 if tier == "quick" else 8})
     if tier == "quick":
         for L in LIMITS:
             out.append({"kind": "body", "L": L, "override": False})
@@ -184,7 +209,8 @@ def shards(tier, seed):
 
 def gen_cases(spec):
     tier = spec["tier"]
-    rng = core.rng_for(spec["seed"], PROP, f'{spec["kind"]}{spec.get("L")}{spec.get("override")}{spec.get("framings")}{spec.get("more")}')
+    rng = core.rng_for(spec["seed"], PROP, f'{spec["kind"]}{spec.get("L")}{spec.get("override")}{spec.get("framings")}{spec.get("more")}'
+                       + (f'{spec["j"]}' if spec["kind"] == "seq" else ""))
     if spec["kind"] == "header":
         for M in HEADER_LIMITS:
             hs = {M - 1, M, M + 1, M + 18, M + 19, M + 20, 2 * M, min(100 * M, 400000), max(27, M // 2)}
@@ -198,6 +224,9 @@ def gen_cases(spec):
                         for sched in (["whole", "random"] if tier == "quick" else ["whole", "random", "bytes", "mix"]):
                             yield {"kind": "header", "M": M, "H": H, "pad": pad, "terminated": term, "sched": sched,
                                    "sseed": rng.getrandbits(30)}
+        return
+    if spec["kind"] == "seq":
+        yield from gen_seq(spec, rng, tier)
         return
     L = spec["L"]
     framings = spec.get("framings") or FRAMINGS
@@ -235,6 +264,58 @@ def gen_cases(spec):
                                    "chunk_size": cs, "sched": sched, "sseed": rng.getrandbits(30)}
 
 
+# --- request histories on ONE kept-alive connection ------------------------------------------------------------
+# The limit that applies to a request is the per-request override if ITS delegate set one, else the server-wide
+# limit - whatever earlier requests on the connection did.  Server-wide limit: max_body_size, or, when that is not
+# given, the connection stream's max_buffer_size (HTTPServer(max_buffer_size=N) alone).
+SEQ_LIMITS = {"quick": [64, 1000], "thorough": [64, 1000, 5000, 20000]}
+SEQ_KEEP = {"quick": 0.15, "thorough": 0.33}      # the product below is thinned at random (deterministic per seed)
+SEQ_PROBE_FRAMINGS = ["cl", "chunked1", "chunked-straddle", "gzip-cl", "cl-dup-lines", "cl-dup-list"]
+SEQ_EARLIER_FRAMINGS = ["cl", "chunked1", "chunked-straddle", "gzip-cl"]
+
+
+def seq_configs(S):
+    """(max_body_size, max_buffer_size) pairs whose server-wide body limit is S."""
+    return [(None, S + 300 if S < 300 else S), (S, None), (S, 4 * S + 300), (S, max(300, S // 2))]
+
+
+def seq_server_limit(Ls, N):
+    return Ls if Ls is not None else N
+
+
+def gen_seq(spec, rng, tier):
+    k = 0
+    for S0 in SEQ_LIMITS[tier]:
+        for Ls, N in seq_configs(S0):
+            S = seq_server_limit(Ls, N)
+            for Lo in (4 * S + 100, S + 1, max(0, S // 4), S - 1):
+                lo, hi = min(S, Lo), max(S, Lo)
+                # the last request probes a limit; the earlier ones are within theirs (so the connection is kept)
+                probe_sizes = sorted({lo - 1, lo, lo + 1, (lo + hi) // 2, hi - 1, hi, hi + 1, 2 * hi})
+                within_u = sorted({Lo, min(Lo, S + 1), Lo // 2})       # sizes that use the override
+                shapes = [("u", "p"), ("u", "u"), ("p", "u"), ("u", "p", "p"), ("p", "u", "p"), ("u", "u", "p")]
+                for shape in shapes:
+                    for ps in probe_sizes:
+                        for pf in SEQ_PROBE_FRAMINGS:
+                            k += 1
+                            if k % spec["of"] != spec["j"]:
+                                continue
+                            if rng.random() >= SEQ_KEEP[tier]:
+                                continue
+                            reqs = []
+                            for who in shape[:-1]:
+                                size = rng.choice(within_u) if who == "u" else rng.choice([S, S - 1, S // 2])
+                                fr = rng.choice(SEQ_EARLIER_FRAMINGS)
+                                if fr == "gzip-cl":
+                                    size = max(0, size - 40)      # the wire form of an incompressible body is ~23 bytes longer
+                                reqs.append([who, fr, size])
+                            reqs.append([shape[-1], pf, ps])
+                            how = rng.choice(["raw", "stream"])
+                            sched = rng.choice(["whole", "random"] if tier == "quick" else ["whole", "random", "bytes", "mix"])
+                            yield {"kind": "seq", "Ls": Ls, "N": N, "Lo": Lo, "reqs": reqs, "how": how, "sched": sched,
+                                   "sseed": rng.getrandbits(30)}
+
+
 def directed_cases():
     # DESIGN §5: per-request override lower than the server limit + gzip body
     yield {"kind": "body", "Ls": 100000, "Lo": 50, "E": 50, "framing": "gzip-bomb", "size": 1000, "how": "raw",
@@ -244,6 +325,16 @@ def directed_cases():
     # ... and higher: a body within the raised limit
     yield {"kind": "body", "Ls": 20, "Lo": 5000, "E": 5000, "framing": "gzip-bomb", "size": 4000, "how": "raw",
            "chunk_size": None, "sched": "whole", "sseed": 3}
+    # a repeated Content-Length above the limit (two field lines / one list)
+    yield {"kind": "body", "Ls": 4096, "Lo": None, "E": 4096, "framing": "cl-dup-lines", "size": 4097, "how": "stream",
+           "chunk_size": None, "sched": "whole", "sseed": 4}
+    yield {"kind": "body", "Ls": 4096, "Lo": None, "E": 4096, "framing": "cl-dup-list", "size": 50000, "how": "raw",
+           "chunk_size": None, "sched": "random", "sseed": 5}
+    # limit given only by max_buffer_size; a request that raised its own limit, then an ordinary over-limit request
+    yield {"kind": "seq", "Ls": None, "N": 16384, "Lo": 200000, "reqs": [["u", "cl", 100000], ["p", "cl", 50000]],
+           "how": "stream", "sched": "whole", "sseed": 6}
+    yield {"kind": "seq", "Ls": None, "N": 16384, "Lo": 200000, "reqs": [["u", "chunked1", 16385], ["p", "chunked-straddle", 16385]],
+           "how": "raw", "sched": "random", "sseed": 7}
 
 
 # ---------------------------------------------------------------------------
@@ -297,7 +388,7 @@ def make_stream_app(override):
     return web.Application([(r"/.*", H)])
 
 
-def execute(stream, case, server_kw, target):
+def execute(stream, case, server_kw, target, stream_kw=None):
     obs = {}
     rng = core.rng_for(case["sseed"], PROP, "sched")
     total = len(stream)
@@ -312,12 +403,59 @@ def execute(stream, case, server_kw, target):
         plan = wire.read_plan_for(rng, "mix", 200)
 
     async def main():
-        rig = wire.ServerRig(target, read_plan=plan, **server_kw)
+        rig = wire.ServerRig(target, read_plan=plan, stream_kw=stream_kw, **server_kw)
         peer = rig.connect()
         await peer.send(stream, cuts)
         await peer.drain(3)
         obs["eof_before_halfclose"] = peer.eof
         obs["rx_before_halfclose"] = bytes(peer.rx)
+        peer.half_close()
+        await peer.drain(3)
+        obs["rx"] = bytes(peer.rx)
+        obs["eof"] = peer.eof
+        obs["log"] = rig.log
+        await rig.close()
+        peer.close()
+
+    try:
+        vloop.run(main, collect=False)
+    except vloop.Quiescent:
+        obs["quiescent"] = True
+    return obs
+
+
+def execute_seq(parts, case, server_kw, target, stream_kw=None):
+    """Request/response exchanges one after the other on one connection (no pipelining: bytes a peer sends ahead of the
+    request being served are subject to the stream's read-ahead policy, which is not what is examined here)."""
+    obs = {"sent_parts": 0}
+    rng = core.rng_for(case["sseed"], PROP, "sched")
+    sched = case["sched"]
+
+    def cuts_plan(total):
+        if sched == "random" or (sched in ("bytes", "mix") and total > 800):
+            return wire.cuts_for(rng, total, "random")
+        if sched == "bytes":
+            return wire.cuts_for(rng, total, "bytes")
+        if sched == "mix":
+            return wire.cuts_for(rng, total, "random")
+        return None
+
+    plan = wire.read_plan_for(rng, "mix", 200) if sched == "mix" else None
+
+    async def main():
+        rig = wire.ServerRig(target, read_plan=plan, stream_kw=stream_kw, **server_kw)
+        peer = rig.connect()
+        for i, part in enumerate(parts):
+            await peer.send(part, cuts_plan(len(part)))
+            obs["sent_parts"] = i + 1
+            for _ in range(8):
+                await peer.drain(1)
+                if peer.eof or bytes(peer.rx).count(b"\r\n\r\n") > i:
+                    break
+            if peer.eof or peer.send_error is not None:
+                break
+        await peer.drain(3)
+        obs["eof_before_halfclose"] = peer.eof
         peer.half_close()
         await peer.drain(3)
         obs["rx"] = bytes(peer.rx)
@@ -366,9 +504,32 @@ def summarise(log):
     return per
 
 
+def expect_of(fr, W, D, E):
+    """Arithmetic expectation for one request with wire size W / decoded size D under the effective limit E."""
+    if fr == "gzip-multi":
+        return "unspec"
+    if fr.startswith("gzip"):
+        return "accept" if (W <= E and D <= E) else "refuse"
+    if fr.startswith("cl-dup"):
+        # over the limit it is refused whichever way the repeated value is read (invalid, or too long); within the
+        # limit RFC 9110 8.6 lets the recipient reject it or use the single value
+        return "optional" if D <= E else "refuse"
+    return "accept" if D <= E else "refuse"
+
+
+def cls_of(fr, override):
+    if fr.startswith("gzip"):
+        return "gzip-override" if override else "gzip"
+    if fr.startswith("chunked"):
+        return "chunked"
+    return "cl-repeated" if fr.startswith("cl-dup") else "cl"
+
+
 def run_case(case, ctx):
     if case["kind"] == "header":
         return run_header(case, ctx)
+    if case["kind"] == "seq":
+        return run_seq(case, ctx)
     built = build_body(case)
     if built is None:
         ctx.count("unbuildable")
@@ -387,12 +548,7 @@ def run_case(case, ctx):
     target = RawDelegate(Lo) if case["how"] == "raw" else make_stream_app(Lo)
 
     # --- arithmetic expectation ---
-    if fr == "gzip-multi":
-        expect = "unspec"
-    elif is_gzip:
-        expect = "accept" if (W <= E and D <= E) else "refuse"
-    else:
-        expect = "accept" if D <= E else "refuse"
+    expect = expect_of(fr, W, D, E)
 
     with logmon.LogMon() as lm:
         obs = execute(stream, case, server_kw, target)
@@ -400,7 +556,7 @@ def run_case(case, ctx):
     r0 = per.get(0, {"headers": 0, "n": 0, "data": [], "finish": 0, "close": 0})
     r1 = per.get(1)
     st = statuses_of(obs.get("rx", b""))
-    cls = ("gzip-override" if (is_gzip and Lo is not None) else ("gzip" if is_gzip else ("chunked" if fr.startswith("chunked") else "cl")))
+    cls = cls_of(fr, Lo is not None)
     wit = {"case": dict(case), "W": W, "D": D, "E": E, "expect": expect, "delivered": r0["n"], "finish": r0["finish"],
            "close": r0["close"], "statuses": st, "eof": obs.get("eof"), "head": head[:200],
            "follow_up": None if r1 is None else {k: r1[k] for k in ("headers", "finish")}}
@@ -457,6 +613,19 @@ def run_case(case, ctx):
                   "connection was not closed after refusing an over-limit request", wit)
         ctx.check(r1 is None or r1["headers"] == 0, f"{cls}/request-served-after-refusal",
                   "a request following the refused one was delivered", wit)
+    elif expect == "optional":
+        # accept-or-reject; an accepted one must be framed by the repeated value and leave the connection usable
+        ctx.count("optional_repeated_content_length")
+        if r0["finish"] == 1:
+            ctx.count("optional_accepted")
+            ctx.check(b"".join(r0["data"]) == decoded, f"{cls}/within-limit-body-differs",
+                      "body delivered for a within-limit request differs from what was sent", wit)
+            ctx.check(st == [200, 200] and r1 is not None and r1["finish"] == 1, f"{cls}/connection-affected-after-within-limit-request",
+                      "the follow-up request on the same connection was not served after a within-limit request", wit)
+        else:
+            ctx.count("optional_refused")
+            ctx.check(st in ([], [400]) and (r1 is None or r1["headers"] == 0), f"{cls}/request-served-after-refusal",
+                      "a request following the refused one was delivered", wit)
     else:
         ctx.count("unspecified_multi_member_gzip")
         ctx.count("unspecified_accepted" if r0["finish"] else "unspecified_refused")
@@ -468,6 +637,108 @@ def run_case(case, ctx):
     ctx.mark((case["Ls"], case["Lo"], fr, case["size"], case["how"], case.get("chunk_size"), case["sched"]), near or ratio > 10)
     if (near or ratio > 10) and expect == "refuse":
         ctx.sample(dict(case, W=W, D=D, expect=expect))
+
+
+def run_seq(case, ctx):
+    """Several requests on one kept-alive connection; "/u" requests get the per-request override, "/p" requests none."""
+    Ls, N, Lo = case["Ls"], case["N"], case["Lo"]
+    S = seq_server_limit(Ls, N)
+    plan_, parts = [], []
+    any_gzip = any(fr.startswith("gzip") for _, fr, _ in case["reqs"])
+    for i, (who, fr, size) in enumerate(case["reqs"]):
+        E = Lo if who == "u" else S
+        built = build_body({"framing": fr, "size": size, "E": E, "sseed": case["sseed"] + i})
+        if built is None:
+            ctx.count("unbuildable")
+            return
+        hdrs, wire_body, decoded, W, D = built
+        head = b"POST /" + who.encode() + b" HTTP/1.1\r\nHost: x\r\n" + b"".join(k + b": " + v + b"\r\n" for k, v in hdrs) + b"\r\n"
+        parts.append(head + wire_body)
+        plan_.append({"who": who, "framing": fr, "E": E, "W": W, "D": D, "decoded": decoded, "expect": expect_of(fr, W, D, E)})
+    parts.append(FOLLOW)
+    server_kw = {}
+    if Ls is not None:
+        server_kw["max_body_size"] = Ls
+    stream_kw = None
+    if N is not None:
+        # what HTTPServer(max_buffer_size=N) does for an accepted socket: TCPServer builds IOStream(max_buffer_size=N)
+        server_kw["max_buffer_size"] = N
+        stream_kw = {"max_buffer_size": N}
+    if any_gzip:
+        server_kw["decompress_request"] = True
+    target = RawDelegate(Lo) if case["how"] == "raw" else make_stream_app(Lo)
+    with logmon.LogMon():
+        obs = execute_seq(parts, case, server_kw, target, stream_kw)
+    per = summarise(obs.get("log", []))
+    st = statuses_of(obs.get("rx", b""))
+    empty = {"headers": 0, "n": 0, "data": [], "finish": 0, "close": 0}
+    wit = {"case": dict(case), "server_wide_limit": S, "override": Lo,
+           "requests": [{k: p[k] for k in ("who", "framing", "E", "W", "D", "expect")} for p in plan_],
+           "observed": [{k: (per.get(i, empty)[k]) for k in ("headers", "n", "finish", "close")} for i in range(len(plan_) + 1)],
+           "statuses": st, "eof": obs.get("eof"), "eof_before_halfclose": obs.get("eof_before_halfclose"),
+           "exchanges_started": obs.get("sent_parts")}
+    ctx.count("oracle_evals")
+    ctx.count("history_cases")
+    ctx.count("history_limit_from_max_buffer_size" if Ls is None else "history_limit_from_max_body_size")
+    if obs.get("quiescent"):
+        ctx.violation("harness/quiescent", "driver stuck", wit)
+        return
+    served = 0          # requests answered 200 so far
+    refused_at = None
+    overridden_before = False
+    for i, p in enumerate(plan_):
+        r = per.get(i, empty)
+        cls = cls_of(p["framing"], p["who"] == "u")
+        # the key says what the connection had seen before: an earlier request with its own override, or only plain ones
+        hist = "history-after-per-request-override" if overridden_before else ("history-kept-alive" if i else "history-first")
+        w = dict(wit, index=i)
+        ctx.count("delivered_bound_evals")
+        ctx.check(r["n"] <= p["E"], f"{hist}/{cls}/application-handed-more-than-the-limit",
+                  "sum of data_received lengths exceeds the limit in force for this request (its own override, else the "
+                  "server-wide limit)", w)
+        ctx.check(p["decoded"].startswith(b"".join(r["data"])), f"{hist}/{cls}/delivered-bytes-not-a-prefix-of-the-body",
+                  "delivered body bytes are not a prefix of the (decoded) body that was sent", w)
+        expect = p["expect"]
+        if expect == "optional":
+            ctx.count("optional_repeated_content_length")
+            expect = "accept" if r["finish"] == 1 else "refuse-optional"
+        if expect == "accept":
+            ctx.count("must_accept")
+            ok = ctx.check(r["finish"] == 1 and r["close"] == 0, f"{hist}/{cls}/within-limit-request-refused",
+                           "a request within the limit in force for it did not reach finish()", w)
+            if not ok:
+                return
+            ctx.check(b"".join(r["data"]) == p["decoded"], f"{hist}/{cls}/within-limit-body-differs",
+                      "body delivered for a within-limit request differs from what was sent", w)
+            served += 1
+        else:
+            if expect == "refuse":
+                ctx.count("must_refuse")
+                ctx.check(r["finish"] == 0, f"{hist}/{cls}/over-limit-request-finished",
+                          "a request exceeding the limit in force for it (its own override, else the server-wide limit) "
+                          "reached finish()", w)
+            refused_at = i
+            break
+        overridden_before = overridden_before or p["who"] == "u"
+    if refused_at is None:
+        ctx.count("history_all_within")
+        rf = per.get(len(plan_))
+        ctx.check(st == [200] * (served + 1) and rf is not None and rf["finish"] == 1,
+                  "history/connection-affected-after-within-limit-requests",
+                  "the follow-up request on the same connection was not served after within-limit requests", wit)
+    else:
+        ctx.count("history_refused_last" if refused_at == len(plan_) - 1 else "history_refused_earlier")
+        ctx.check(st in ([200] * served, [200] * served + [400]), "history/refusal-answer-not-400-or-close",
+                  "peer saw something other than the earlier 200s followed by 400 or plain close", wit)
+        ctx.check(obs.get("eof_before_halfclose") is True or obs.get("eof") is True, "history/connection-open-after-refusal",
+                  "connection was not closed after refusing an over-limit request", wit)
+        later = [j for j in range(refused_at + 1, len(plan_) + 1) if per.get(j, empty)["headers"]]
+        ctx.check(not later, "history/request-served-after-refusal", "a request following the refused one was delivered",
+                  dict(wit, later=later))
+    near = any(abs(x - e) <= 1 for p in plan_ for x in (p["D"], p["W"]) for e in (p["E"], S, Lo))
+    ctx.mark(("seq", Ls, N, Lo, tuple(tuple(r) for r in case["reqs"]), case["how"], case["sched"]), near)
+    if near and refused_at is not None:
+        ctx.sample({k: case[k] for k in ("Ls", "N", "Lo", "reqs", "how", "sched")})
 
 
 def run_header(case, ctx):
